@@ -187,7 +187,8 @@ def tlc_coverage_untaken(out, actions):
 def model_check(spec_dir, module, cfg, work, tag, actions=(), workers=16, timeout=3000, heap="12g"):
     """P1: exhaustive check. Returns dict(states, transitions, ok, out). Raises Broken on tooling failure."""
     extra = ["-coverage", "1"] if actions else None
-    rc, out = tlc(spec_dir, module, cfg, work, tag, workers=workers, extra=extra, timeout=timeout, heap=heap)
+    rc, out = tlc(spec_dir, module, cfg, work, tag, workers=workers, extra=extra, timeout=timeout, heap=heap,
+                  deadlock_off=True)
     gen, dist = tlc_stats(out)
     if rc == 0:
         unt = tlc_coverage_untaken(out, actions) if actions else []
